@@ -65,7 +65,8 @@ RULE = ("one real check per assert function / macro family (31 kinds incl. MEMCM
         "and of mixed kinds; ignored tests, -ri, runs in which nothing runs but something is ignored (only IGNORE_TESTs, filters "
         "selecting only ignored tests, repeat > 1); strict filters incl. ones selecting nothing; plugins reporting errors in "
         "pre/post actions; -v, -vv, -c; scripted clock readings incl. a clock running backwards; 50/51/100 tests for the progress "
-        "line break; repeat forms -r, -rN, -r N; rethrow mode with and without a throwing test; -p; the Visual Studio / eclipse / "
+        "line break; repeat forms -r, -rN, -r N; rethrow mode with and without a throwing test; SEQUENCES of 2-4 runner invocations in one process with different -e settings (op "
+        "`rethrow` between the runs; a runner with -e after one without it meets tests that throw); -p; the Visual Studio / eclipse / "
         "detected working environment (op env); -ojunit -v runs through the CompositeTestOutput with output one recorded (op "
         "composite); runs on the REAL stdout (a fully buffered pipe, real ConsoleTestOutput and fputs/fflush, mostly with -p) whose "
         "bytes are read back (op realio); both build variants. non-trivial = at least one failure record or a 'ran nothing' "
@@ -343,6 +344,45 @@ def gen_rethrow_case(rng):
     return ops
 
 
+def gen_sequence_case(rng, throw_free=False):
+    """a SEQUENCE of runner invocations in ONE process with different -e settings (`rethrow <0|1>` between the `run`s): what
+    an earlier runner left in the process (the static rethrow flag, jmp_buf_index, current test) must not reach the next one.
+    The program grows between the invocations; the invocations without -e mostly run a program that throws nothing (they
+    return), the ones with -e get tests that let std / foreign exceptions out"""
+    g = Gen(rng, throw_free)
+    modes = list(rng.choice([[1, 0], [1, 0], [1, 0], [1, 0, 0], [1, 1, 0], [0, 1, 0], [0, 1, 0], [1, 0, 1, 0], [0, 1], [0, 0, 1, 0]]))
+    ops = [cfg_line(rng, rethrow=bool(modes[0]), separate=False, repeat=rng.choice(["none", "none", "none", "a2", "bare"]))]
+    if rng.random() < 0.2:
+        ops.append(env_line(rng))
+    if rng.random() < 0.4:
+        ops.append(clock_line(rng))
+    if rng.random() < 0.3:
+        add_plugins(rng, ops)
+    quiet = Gen(rng, True)            # never throws
+    quiet.label = 100
+    labels = []
+    careless = rng.random() < 0.1     # now and then a runner without -e meets a throwing test: the process ends there
+    for k, m in enumerate(modes):
+        if k > 0:
+            ops.append("rethrow %d" % m)
+        later_rethrow = any(modes[k:]) and not careless
+        for _ in range(rng.choice([0, 1, 1, 2, 3]) if k > 0 else rng.choice([1, 1, 2, 3])):
+            if later_rethrow or throw_free:
+                quiet.mark = g.mark
+                labels.append(quiet.test(ops, quiet.random_fails(0.4), ignored=rng.random() < 0.08))
+                g.mark = quiet.mark
+            else:
+                fails = g.random_fails(0.5)
+                if rng.random() < 0.6:
+                    fails[rng.choice(PHASES)] = rng.choice(THROWS)
+                labels.append(g.test(ops, fails, ignored=rng.random() < 0.08))
+        if not later_rethrow and not throw_free and labels and rng.random() < 0.5:
+            # an existing test starts to throw (appended to a phase: after whatever that phase does)
+            ops.append("s %s %s %s" % (rng.choice(labels), rng.choice(PHASES), rng.choice(THROWS)))
+        ops.append("run")
+    return ops
+
+
 def gen_case(rng, ntests, throw_free=False, p_fail=0.45, long_run=None, verbosity=None):
     """long_run: (length, kind or None): a run of consecutive failing tests inside the program"""
     g = Gen(rng, throw_free)
@@ -421,6 +461,9 @@ def stream(rng, tier, throw_free=False, scale=1.0):
     if not throw_free:
         for _ in range(int((80 if quick else 600) * scale)):
             out.append(("rethrow", gen_rethrow_case(rng)))
+    # several runner invocations in one process, with and without -e
+    for _ in range(int((120 if quick else 700) * scale)):
+        out.append(("sequence", gen_sequence_case(rng, throw_free)))
     # medium / large programs; the progress dots break the line after every 50th test
     for _ in range(int((60 if quick else 300) * scale)):
         out.append(("gen", gen_case(rng, rng.choice([20, 30, 45, 50, 51, 60, 100]), throw_free,
@@ -465,6 +508,7 @@ HEX_ERRORS = "4572726f72732028"            # "Errors ("
 HEX_OK = "4f4b2028"                        # "OK ("
 HEX_NOTHING = "72616e206e6f7468696e672c20"  # "ran nothing, "
 HEX_FAILURE_IN = "204661696c75726520696e20"  # " Failure in "
+HEX_UNEXPECTED = "556e657870656374656420657863657074696f6e"  # "Unexpected exception"
 
 
 def nontrivial(r):
@@ -475,6 +519,7 @@ def nontrivial(r):
 def observe(r, rep, prefix=""):
     run = 0        # current run of consecutive tests that recorded a failure
     best = 0
+    cur_rethrow, runs_without_e, after_on = False, 0, False     # sequence of runner invocations in the case
     for l in r.impl:
         if l.startswith("> s "):
             w = l.split()
@@ -509,8 +554,21 @@ def observe(r, rep, prefix=""):
                 rep.count(prefix + "with.colour")
             if w[6] == "1":
                 rep.count(prefix + "with.rethrow_mode")
+                cur_rethrow = True
             if len(w) > 7 and w[7] == "1":
                 rep.count(prefix + "with.separate_process")
+        elif l.startswith("> rethrow "):
+            cur_rethrow = l.endswith("1")
+            rep.count(prefix + "with.next_runner_" + ("without_e" if cur_rethrow else "with_e"))
+        elif l == "> run":
+            after_on = (not cur_rethrow) and runs_without_e > 0
+            if after_on:
+                rep.count(prefix + "branch.runner_with_e_after_runner_without_e")
+            if cur_rethrow:
+                runs_without_e += 1
+        elif after_on and l.startswith("t " + HEX_UNEXPECTED):
+            rep.count(prefix + "branch.escaped_exception_under_e_after_runner_without_e")
+            after_on = False          # once per invocation
         elif l.startswith("> clock"):
             rep.count(prefix + "with.scripted_clock")
         elif l.startswith("> env "):
@@ -549,7 +607,7 @@ CLASSES = [("the runner crashed", "crash"), ("crash outside a run", "crash"),
            ("per-test failed flag", "failed-flag"),
            ("summary printed", "summary"), ("summary line", "summary"),
            ("runner returned", "return-value"), ("did not return", "return-value"),
-           ("tests were run or skipped", "tests-run")]
+           ("tests were run or skipped", "tests-run"), ("an exception left the runner", "exception-left-the-runner")]
 
 
 def signature(r):
@@ -626,7 +684,11 @@ LEVEL_TEXT = ("Machine-checked Lean 4 theorems over an executable model of the r
               "printed verdict condition and TestResult::isFailure (both regenerated) agree, so the summary reads OK iff no failure "
               "and something ran or was ignored; every test is counted once as run, ignored or filtered out; the summary time is "
               "last minus first clock reading; the return value is 0 iff every repetition is fine, below 2^32 failures; in rethrow "
-              "mode the first std/foreign exception is recorded once and leaves runAllTests. NEW: the code of Utest::run (both "
+              "mode the first std/foreign exception is recorded once and leaves runAllTests; the statements of initializeTestRun "
+              "that write the process-wide static rethrow flag are regenerated and proved to be an unconditional assignment of "
+              "the option (initializeTestRun_is_the_source), so every invocation of a sequence of runners in one process has the "
+              "outcome of its own command line whatever the earlier ones' options were (invocation_as_if_alone, "
+              "with_e_after_any_history, sequence_invocation_outcome). NEW: the code of Utest::run (both "
               "variants: try blocks, statements, guard, every catch clause), of runOneTestInCurrentProcess, of "
               "TestOutput::printFailure and its callees (both formats, layout conditions), of ConsoleTestOutput::printBuffer/flush and "
               "the receiver table of CompositeTestOutput are REGENERATED from the source on every run as data and executed by "
